@@ -83,7 +83,7 @@ sensitivity)
     git -C /repo worktree add -q --detach "$WT" HEAD || { echo "cannot create worktree" >&2; exit 2; }
     if ! git -C "$WT" apply "$pf"; then echo "$name: patch does not apply"; git -C /repo worktree remove --force "$WT"; rc=2; continue; fi
     t0=$(date +%s)
-    out="$(VERIF_REPO_OVERRIDE="$WT" VERIF_TARGET_DIR="$SIM/target/mut" VERIF_OUT="$OUTD" VERIF_SCALE="${VERIF_SCALE:-100}" "$HERE/check" "$prop" quick 2>&1)"; r=$?
+    out="$(VERIF_MAX_VIOLATIONS="${VERIF_MAX_VIOLATIONS:-80}" VERIF_REPO_OVERRIDE="$WT" VERIF_TARGET_DIR="$SIM/target/mut" VERIF_OUT="$OUTD" VERIF_SCALE="${VERIF_SCALE:-100}" "$HERE/check" "$prop" quick 2>&1)"; r=$?
     t1=$(date +%s)
     v="$(echo "$out" | grep -m1 '^VIOLATION' || true)"
     rp="$(echo "$v" | sed -n 's/.*replay=\(.*\)$/\1/p')"
